@@ -63,6 +63,24 @@ FamHdrSrc ==
            \cup {C(bl, EncDigits(AddPow(DigitsOf(bl), p), 11) \o EncSize(3) \o Body3) : p \in {32, 63, 64, 70}}
            : bl \in {0, B1}}
 
+\* over-long size headers whose value, computed with a shift count taken modulo 64 (what a 64-bit
+\* shift instruction does), equals the real length: limb k (k >= 10, i.e. the 11th byte or later)
+\* holds b, so the declared size is at least 2^70 while the "wrapped" size is b * 2^((7k) % 64)
+\* (+ the low limbs).  The body produces exactly the wrapped size.  Every decoder must refuse them.
+WrapVal(k, b) == b * (2 ^ ((7 * k) % 64))
+Produce(t) == IF t <= 127 THEN <<t>> \o [i \in 1..t |-> X] ELSE EncCopy(0, t)
+WrapDigits(low, k, b) == low \o Zeros(k - Len(low)) \o <<b>>
+FamHdrWrap ==
+    \* target size wraps
+    UNION {{C(B2, EncSize(B2) \o EncDigits(WrapDigits(low, k, b), k + 1) \o Produce(IntOf(low) + WrapVal(k, b)))
+            : low \in {<<>>, <<3>>}, b \in {1, 3}} : k \in {10, 11, 19, 20, 64}}
+    \* source size wraps (base of 64 and of 67 bytes), target size plain
+    \cup UNION {{C(64 + IntOf(low), EncDigits(WrapDigits(low, k, 1), k + 1) \o EncSize(n) \o body)
+                 : low \in {<<>>, <<3>>}, body \in {EncCopy(0, n), Produce(n)}} : k \in {10}, n \in {5, 64}}
+    \* both wrap
+    \cup {C(64, EncDigits(WrapDigits(<<>>, 10, 1), 11) \o EncDigits(WrapDigits(<<>>, 10, 1), 11) \o EncCopy(0, 64)),
+          C(64, EncDigits(WrapDigits(<<>>, 10, 1), 11) \o EncDigits(WrapDigits(<<>>, 19, 2), 20) \o Produce(64))}
+
 \* truncated / degenerate headers
 FamHdrTrunc ==
     {C(0, d) : d \in {<<>>, <<128>>, <<255, 255>>, <<0>>, <<0, 128>>, <<0, 255, 255, 255>>,
@@ -123,13 +141,13 @@ FamAmplify ==
     {CR(B2, EncSize(B2) \o EncSize(d), CopyBig, k) : d \in {65536, 131072}, k \in {4096}}
     \cup {CR(0, EncSize(0) \o EncSize(127), Ins127, 2048)}
 
-FamNames == {"hdrdst", "hdrsrc", "hdrtrunc", "copy3", "far", "copytrunc", "insert", "zero", "overrun", "edge"}
+FamNames == {"hdrdst", "hdrsrc", "hdrtrunc", "copy3", "far", "copytrunc", "insert", "zero", "overrun", "edge", "hdrwrap"}
             \cup (IF Big THEN {"copy4", "amplify"} ELSE {})
 CasesOf(f) ==
     CASE f = "hdrdst" -> FamHdrDst [] f = "hdrsrc" -> FamHdrSrc [] f = "hdrtrunc" -> FamHdrTrunc
       [] f = "copy3" -> FamCopy(B2) [] f = "far" -> FamFar [] f = "copytrunc" -> FamCopyTrunc
       [] f = "insert" -> FamInsert [] f = "zero" -> FamZero [] f = "overrun" -> FamOverrun
-      [] f = "copy4" -> FamCopy(B3) [] f = "amplify" -> FamAmplify [] f = "edge" -> FamEdge
+      [] f = "copy4" -> FamCopy(B3) [] f = "amplify" -> FamAmplify [] f = "edge" -> FamEdge [] f = "hdrwrap" -> FamHdrWrap
 
 RECURSIVE Flat(_)
 Flat(segs) == IF segs = <<>> THEN <<>> ELSE segs[1] \o Flat(Tail(segs))
